@@ -172,7 +172,10 @@ func init() {
 		// sort with host fast paths is unnecessary: sort runs from SSA.
 
 		// protobuf: structural stand-ins
-		"google.golang.org/protobuf/proto.Equal": nil,
+		"google.golang.org/protobuf/proto.Equal":                                   extProtoEqual,
+		"github.com/golang/protobuf/proto.Equal":                                   extProtoEqual,
+		"(google.golang.org/protobuf/internal/impl.Export).MessageStringOf":        func(fr *frame, a []value) value { return "<proto message>" },
+		"(*google.golang.org/protobuf/internal/impl.Export).MessageStringOf":       func(fr *frame, a []value) value { return "<proto message>" },
 	} {
 		if v != nil {
 			externals[k] = v
@@ -1007,4 +1010,110 @@ func extSortSlice(fr *frame, a []value) value {
 	f := pkg.Func("pdqsort_func")
 	call(fr.i, fr, fr.pos, f, []value{ls, 0, n, limit})
 	return nil
+}
+
+// proto.Equal on generated messages: structural equality of the exported
+// fields (the contract of proto.Equal for messages without unknown fields).
+func extProtoEqual(fr *frame, a []value) value {
+	x, y := a[0].(iface), a[1].(iface)
+	if x.t == nil || y.t == nil {
+		return x.t == nil && y.t == nil
+	}
+	if !types.Identical(x.t, y.t) {
+		return false
+	}
+	return mkVal(types.Bool, deepEqTerm(x.t, x.v, y.v, 0))
+}
+
+func isProtoInternalField(f *types.Var) bool {
+	switch f.Name() {
+	case "state", "sizeCache", "unknownFields", "XXX_NoUnkeyedLiteral", "XXX_unrecognized", "XXX_sizecache":
+		return true
+	}
+	return false
+}
+
+func deepEqTerm(t types.Type, x, y value, depth int) *Term {
+	if depth > 64 {
+		panic(pathEnd{peUnsupported, "deepEqTerm: recursion too deep (cyclic message?)"})
+	}
+	switch u := t.Underlying().(type) {
+	case *types.Pointer:
+		px, py := x.(*value), y.(*value)
+		if px == nil || py == nil {
+			return BoolT(px == nil && py == nil)
+		}
+		if px == py {
+			return TrueT
+		}
+		return deepEqTerm(u.Elem(), *px, *py, depth+1)
+	case *types.Struct:
+		sx, sy := x.(structure), y.(structure)
+		cs := []*Term{}
+		for i := 0; i < u.NumFields(); i++ {
+			f := u.Field(i)
+			if isProtoInternalField(f) {
+				continue
+			}
+			c := deepEqTerm(f.Type(), sx[i], sy[i], depth+1)
+			if c == FalseT {
+				return FalseT
+			}
+			cs = append(cs, c)
+		}
+		return And(cs...)
+	case *types.Slice:
+		ax, ay := x.([]value), y.([]value)
+		if len(ax) != len(ay) {
+			return FalseT
+		}
+		cs := []*Term{}
+		for i := range ax {
+			c := deepEqTerm(u.Elem(), ax[i], ay[i], depth+1)
+			if c == FalseT {
+				return FalseT
+			}
+			cs = append(cs, c)
+		}
+		return And(cs...)
+	case *types.Map:
+		mx, my := x.(*omap), y.(*omap)
+		if mx.len() != my.len() {
+			return FalseT
+		}
+		if mx.len() == 0 {
+			return TrueT
+		}
+		cs := []*Term{}
+		for _, e := range mx.entries {
+			if e.deleted {
+				continue
+			}
+			v2, ok := my.lookup(e.k)
+			if !ok {
+				return FalseT
+			}
+			c := deepEqTerm(u.Elem(), e.v, v2, depth+1)
+			if c == FalseT {
+				return FalseT
+			}
+			cs = append(cs, c)
+		}
+		return And(cs...)
+	case *types.Interface:
+		ix, iy := x.(iface), y.(iface)
+		if ix.t == nil || iy.t == nil {
+			return BoolT(ix.t == nil && iy.t == nil)
+		}
+		if !types.Identical(ix.t, iy.t) {
+			return FalseT
+		}
+		return deepEqTerm(ix.t, ix.v, iy.v, depth+1)
+	case *types.Basic:
+		if u.Info()&types.IsFloat != 0 {
+			return BoolT(x == y)
+		}
+		return eqTerm(t, x, y)
+	}
+	return eqTerm(t, x, y)
 }
